@@ -237,7 +237,7 @@ fn c14_command_from_state() {
 // Arithmetic
 // ------------------------------------------------------------------------------------------------
 
-//@ob fn="<Command as Neg>::neg" at=src/command.rs:124 clause="negation keeps the kind and flips the sign bit of the value (bit-exact, NaN payload kept)"
+//@ob prop=C14,C13 fn="<Command as Neg>::neg" at=src/command.rs:124 clause="negation keeps the kind and flips the sign bit of the value (bit-exact, NaN payload kept)"
 #[kani::proof]
 fn c14_command_neg() {
     let c: Command = kani::any();
@@ -347,7 +347,7 @@ fn c14_command_sub_assign_same_kind() {
     reach!();
 }
 
-//@ob fn="<Command as Mul<f32>>::mul / <Command as Div<f32>>::div and assign forms" at=src/command.rs:108 clause="scaling never changes the kind and never panics, for every command and every f32 factor/divisor (0, inf, NaN included)"
+//@ob prop=C14,C13 fn="<Command as Mul<f32>>::mul / <Command as Div<f32>>::div and assign forms" at=src/command.rs:108 clause="scaling never changes the kind and never panics, for every command and every f32 factor/divisor (0, inf, NaN included)"
 #[kani::proof]
 fn c14_command_scale_keeps_kind() {
     let c: Command = kani::any();
@@ -364,7 +364,7 @@ fn c14_command_scale_keeps_kind() {
     reach!();
 }
 
-//@ob fn="<Command as Mul<f32>>::mul" at=src/command.rs:108 clause="for every command (any kind, any payload x) and every factor f (0, inf, NaN included): c * f has the same kind and value bit-identical to x * f"
+//@ob prop=C14,C13 fn="<Command as Mul<f32>>::mul" at=src/command.rs:108 clause="for every command (any kind, any payload x) and every factor f (0, inf, NaN included): c * f has the same kind and value bit-identical to x * f"
 #[kani::proof]
 fn c14_command_mul_f32_value() {
     let c: Command = kani::any();
@@ -382,7 +382,7 @@ fn c14_command_mul_f32_value() {
 // (DESIGN 5/C14: "V/x: Command + - * / value is the same f32 operator").  What Kani does prove about Div: the kind is
 // kept and it never panics (c14_command_scale_keeps_kind) and `/=` is exactly `/` (c14_command_div_assign_is_div).
 
-//@ob fn="<Command as MulAssign<f32>>::mul_assign" at=src/command.rs:144 clause="a *= f leaves exactly (a * f): proved with <Command as Mul<f32>>::mul replaced by an uninterpreted stand-in, so for every interpretation of the binary form"
+//@ob prop=C14,C13 fn="<Command as MulAssign<f32>>::mul_assign" at=src/command.rs:144 clause="a *= f leaves exactly (a * f): proved with <Command as Mul<f32>>::mul replaced by an uninterpreted stand-in, so for every interpretation of the binary form"
 #[kani::proof]
 #[kani::stub(<Command as Mul<f32>>::mul, stub_command_mul_f32)]
 fn c14_command_mul_assign_is_mul() {
@@ -394,7 +394,7 @@ fn c14_command_mul_assign_is_mul() {
     reach!();
 }
 
-//@ob fn="<Command as DivAssign<f32>>::div_assign" at=src/command.rs:149 clause="a /= f leaves exactly (a / f): proved with <Command as Div<f32>>::div replaced by an uninterpreted stand-in, so for every interpretation of the binary form"
+//@ob prop=C14,C13 fn="<Command as DivAssign<f32>>::div_assign" at=src/command.rs:149 clause="a /= f leaves exactly (a / f): proved with <Command as Div<f32>>::div replaced by an uninterpreted stand-in, so for every interpretation of the binary form"
 #[kani::proof]
 #[kani::stub(<Command as Div<f32>>::div, stub_command_div_f32)]
 fn c14_command_div_assign_is_div() {
